@@ -6,6 +6,37 @@ STD_ASSUME = ["the Lean model is tied to /repo by the T1 extractor and the T2 co
 HOOK_COMMITS = []
 
 PROPS = {
+    "C03": {
+        "claimed": False, "na_reason": "proofs in progress (model, correspondence and T1 theorems done; general lexing theorems being proved)",
+        "model_modules": ["TemplVerif.Model.Js", "TemplVerif.Spec.JsLex"],
+        "proof_modules": ["TemplVerif.Proofs.Js"],
+        "thorough_shards": 8,
+        "level_text": "Lean 4 theorems prove for EVERY byte string / JSON value: text produced by the in-literal escaper, followed by the closing "
+                      "quote, lexes (ECMAScript string / template lexer specification) as ONE literal whose value is the original string, in "
+                      "'...', \"...\" and `...` alike (C03_inliteral), contains no '<' (C03_inliteral_html); JSON strings are single JS literals "
+                      "with the original value and no < > & (C03_bare_string, C03_json_html_safe); the on* attribute form has no double quote and "
+                      "HTML-decodes to the inline call (C03_attr); rejected function names are replaced (C03_fname). The two replacement tables are "
+                      "regenerated from scriptelement.go on every run and checked entry by entry by decide (C03_table_covers, C03_table_entries_ok). "
+                      "Models are compared with the real ScriptContent*/json.Marshal/SafeScript* on every run and the Lean lexer predicate is "
+                      "evaluated on real renders of all 11 JavaScript positions through the real generator.",
+        "level_note": "Trusted: Lean kernel; the hand-written ECMAScript string/template lexer and HTML script-data condition (no JS engine offline); "
+                      "encoding/json's string encoder modelled (tied by T2, 2.3e4 strings quick); numbers are opaque text; a browser may merge "
+                      "adjacent invalid UTF-8 bytes into one U+FFFD where Go yields one per byte; the parser's quote tracker "
+                      "(which position a {{ }} is in) is exercised only through the fixture templates, not modelled: regex literals and nested "
+                      "${} are outside the claim.",
+        "rule": "exhaustive strings over 27 symbols (' \" ` \\ / < > & $ { } + - ! LF CR NUL U+2028 e-acute 0xFF a s c r i p t) to length 3 "
+                "(quick) / 4 (thorough) through the in-literal escaper and json.Marshal; 60 adversarial strings + all strings to length 2/3 over "
+                "14 symbols through 11 rendered positions (bare, three literal kinds, on* call, inline call, JSFuncCall both forms, function-name "
+                "position, JSON script); random nested values through scriptContent and SafeScript*. Non-trivial = output differs from input.",
+        "exhaustive": True,
+        "proved": ["C03_inliteral (all three quote kinds, all byte strings)", "C03_bare_string", "C03_json_html_safe", "C03_attr", "C03_fname",
+                   "table coverage / entry correctness by decide over the regenerated tables"],
+        "monitored": ["models = real runtime.ScriptContent*, json.Marshal, templ.SafeScript*", "lexer predicate on real rendered documents for 11 positions"],
+        "partial": ["parser quote tracker vs a JS lexer on arbitrary scripts (regex literals, nested ${}) is not claimed",
+                    "full JSON value round trip (Json.parse) is stated for strings only; containers are covered by the < > & freedom theorem"],
+        "trusted_base": ["ECMAScript string/template lexer spec (Spec/JsLex.lean)", "encoding/json string encoder with escapeHTML"],
+        "assumptions": STD_ASSUME,
+    },
     "C01": {
         "claimed": True,
         "model_modules": ["TemplVerif.Model.Html", "TemplVerif.Model.Attrs", "TemplVerif.Model.Sinks", "TemplVerif.Spec.HtmlTok"],
